@@ -17,7 +17,10 @@ def run(tier, seed, update_lock=False):
     R.prove(u)
     R.canary_check(u)
     mod = Sources().module(PYX)
-    R.static_obligations('prange', [('matrix_bincount2d/' + oid, ok, d) for oid, ok, d in race.check(mod.funcs['matrix_bincount2d'])])
+    if 'matrix_bincount2d' in mod.funcs:
+        R.static_obligations('prange', [('matrix_bincount2d/' + oid, ok, d) for oid, ok, d in race.check(mod.funcs['matrix_bincount2d'])])
+    else:
+        R.notes.append('race obligations of matrix_bincount2d not generated: %s' % (mod.parse_error or 'function not found'))
     R.bounded('C18.py', 'run-time contracts (the statement) on the real joint_counts / mutual_information / weighted_mi / normalisation / entropy code',
               '<=3 features, <=3 states, <=6 frames; 8 integer dtypes; C/F/strided layouts; threads 1/4/16; rejected inputs (negative / too large ids, length mismatch)')
     R.report_known('C18.py')
